@@ -56,6 +56,16 @@ VIEW_FUNCS = {"transpose", "asarray", "asanyarray", "atleast_1d", "atleast_2d", 
               "ascontiguousarray", "real", "diagonal", "broadcast_to", "expand_dims", "moveaxis"}
 VIEW_METHODS = {"view", "reshape", "ravel", "transpose", "squeeze", "swapaxes", "diagonal", "values", "items", "keys", "get",
                 "setdefault", "__iter__", "flat"}
+def _immutable_literal(e):
+    if isinstance(e, ast.Constant):
+        return not isinstance(e.value, (bytes,)) or True
+    if isinstance(e, ast.UnaryOp) and isinstance(e.operand, ast.Constant):
+        return True
+    if isinstance(e, ast.Tuple):
+        return all(_immutable_literal(x) for x in e.elts)
+    return False
+
+
 MUTATOR_METHODS = {"append", "extend", "insert", "pop", "remove", "clear", "sort", "reverse", "update", "setdefault", "fill",
                    "put", "itemset", "resize", "partition", "setfield", "setflags", "popitem", "add", "discard", "normalize",
                    "byteswap", "__setitem__", "__delitem__", "__iadd__", "__isub__", "__imul__", "__itruediv__"}
@@ -187,6 +197,9 @@ class FunctionFacts:
                 return {(e.id,)}
             if e.id in self.pkg.classes or e.id in self.pkg.funcs or e.id in self.nested:
                 return {FRESH}
+            modc = self.pkg.module_consts.get(getattr(self.fn, "_gs_module", None), {})
+            if e.id in modc and _immutable_literal(modc[e.id]):
+                return {FRESH}           # a module-level number / string / tuple of such: nothing can be changed through it
             return {("<global:%s>" % e.id,)}
         if isinstance(e, ast.Attribute):
             if e.attr in ("T", "real", "flat"):
